@@ -166,7 +166,7 @@ def execCpp (toks : List String) : Option String :=
      | _ => some "exc tree must be an object")
   | op :: tree =>
     if op.startsWith "xr" then
-      let k := (op.drop 2).toString.toNat!
+      let k := ((op.drop 2).toString.take 1).toString.toNat!      -- a trailing 'p' (destination pre-populated) does not change what the model returns
       (match parseTreeValue tree with
        | some (.obj fs, _) => (match putAll (.obj fs) with
           | .obj m =>
@@ -177,7 +177,7 @@ def execCpp (toks : List String) : Option String :=
           | _ => some "exc bad tree")
        | _ => some "exc tree must be an object")
     else if op.startsWith "xd" then
-      let k := (op.drop 2).toString.toNat!
+      let k := ((op.drop 2).toString.take 1).toString.toNat!
       (match tree with
        | [_, hx] => (match cppDes k (parseHex hx) with
           | .ok m => some s!"ok {hexL (cppSerialize m)}"
@@ -249,6 +249,17 @@ def execModel (w : World) (toks : List String) (hint : String) : World × String
       let p' := r.1
       let m := if isNull then "NULL" else memOut r.2.2.2.1
       (setP w k p', s!"{r.2.1.toNat} z{r.2.2.1} m{m} e{errNum p'.err} d{getDepth p'} u{p'.used}" ++ (if r.2.2.2.2 || p'.fault then " FAULT" else ""))
+  -- to_string into a destination of 2 GiB + 4 KiB: by `to_string_protocol` any sufficient capacity gives the same answer,
+  -- so the model runs it with a destination that is just large enough
+  | ["tsH"] => withP fun p =>
+      let q := toString' stdFmts p none 0
+      let capN := q.2.2.1 + 8
+      let r := toString' stdFmts p (some (pattern capN)) capN
+      let p' := r.1
+      let show_ := if r.2.1 then min (r.2.2.1 + 1) 64 else 0
+      (setP w k p', s!"{r.2.1.toNat} z{r.2.2.1} m{memOut (r.2.2.2.1.extract 0 show_)} e{errNum p'.err} d{getDepth p'} u{p'.used}" ++ (if r.2.2.2.2 || p'.fault then " FAULT" else ""))
+  -- time class of to_string on one large bytes value: the specification is "linear" (C16); nothing to compute
+  | ["tq", _] => (w, "lin")
   | ["pr"] => withP fun p =>
       let r := print stdFmts p
       let p' := r.1
@@ -278,12 +289,23 @@ def execModel (w : World) (toks : List String) (hint : String) : World × String
   | ["wn", hx, "N"] => wOp (.str (parseHex hx).toList)
   | ["wy", hx, "N"] => wOp (.bytes (parseHex hx).toList)
   | ["wr", hx] => wOp (.raw (parseHex hx).toList)
+  -- binson_write_raw(w, destination + off, len): memmove semantics = the bytes that were there before the call
+  | ["wrA", off, len] => withW fun x =>
+      if x.bufNull || off.toNat! + len.toNat! > x.cap then (w, "skip")
+      else let r := x.step (.raw (x.mem.extract off.toNat! (off.toNat! + len.toNat!)).toList); (setW w k r.1, wobs r.1 r.2)
   | ["wc"] => withW fun x => (w, wobs x true)
   | ["wv"] => withW fun x => if x.bufNull || x.used > x.cap then (w, "skip") else (w, wobs x (writerVerify x))
   | ["dump"] => withW fun x => (w, "m" ++ (if x.bufNull then "NULL" else memOut x.mem))
   | ["p2w"] => withP fun p => withW fun x =>
       let r := parserToWriter p x
       (setW (setP w k r.1) k r.2.1, pobs r.1 (toString r.2.2.toNat) (getRawC p).2.2.2 ++ " | " ++ wobs r.2.1 r.2.2)
+  -- the in-place variant runs on objects of its own (world unchanged); what it must produce is what the plain transcription produces
+  | ["tr", cap, _] => withP fun p =>
+      let capN := cap.toNat!
+      let x := (Writer.init (pattern capN) capN).1
+      let r := transcribe p x
+      let x' := r.2.1
+      (w, s!"{r.2.2.toNat} e{errNum r.1.err} we{errNum x'.err} c{x'.counter} m{memOut x'.mem}" ++ (if r.1.fault || x'.fault then " FAULT" else ""))
   | ["tr", cap] => withP fun p =>
       let capN := cap.toNat!
       let x := (Writer.init (pattern capN) capN).1
@@ -449,6 +471,14 @@ def textOracle (o : OState) (po : POracle) (toks : List String) (impl : String) 
   -- C13/C14: `ts <cap|NULL> [claimed]` and `pr`
   let parts := impl.splitOn " "
   match toks, parts with
+  | ["tsH"], r :: z :: _ =>
+    -- a capacity of 2 GiB + 4 KiB is "at least that size": true, *size = text length (valid documents); false otherwise
+    let o := { o with nTextJudged := o.nTextJudged + 1 }
+    (match po.value with
+     | none => if r != "0" then o.flag "C13" s!"to_string returned {r} for a document verify must reject" else o
+     | some v =>
+       let n := (render stdFmts v).length
+       if r != "1" || (dropPrefix z 1).toNat! != n then o.flag "C13" s!"capacity 2^31+4096 > text length {n}: expected ret 1 size {n}, got ret {r} size {z}" else o)
   | "ts" :: cap :: rest, r :: z :: m :: _ =>
     let o := { o with nTextJudged := o.nTextJudged + 1 }
     let isNull := cap == "NULL"
@@ -606,6 +636,11 @@ def writerOracle (o : OState) (k : Nat) (toks : List String) (impl : String) : O
     | ["wy", hx] => some (.bytes (parseHex hx).toList) | ["wr", hx] => some (.raw (parseHex hx).toList)
     | ["ws", hx, "N"] => some (.str (parseHex hx).toList) | ["wn", hx, "N"] => some (.str (parseHex hx).toList)
     | ["wy", hx, "N"] => some (.bytes (parseHex hx).toList)
+    | ["wrA", off, len] =>
+      if impl == "skip" then none else
+      let pre := fitted wo.cap 0 wo.pieces.reverse
+      let img := pre ++ wo.base.toList.drop pre.length
+      some (.raw ((img.drop off.toNat!).take len.toNat!))
     | _ => none
   match toks with
   | ["W", cap] =>
@@ -710,7 +745,8 @@ def oracleStep (o : OState) (toks : List String) (impl : String) : OState :=
   let setPO (o : OState) (x : POracle) : OState := { o with ps := o.ps.setIfInBounds k x }
   -- C12: a callback installed by print / to_string must not outlive the call
   let o := if (impl.splitOn " CBLEFT").length > 1 then
-      o.flag "C12" s!"@{k} {op}: the internal print/to_string callback is still installed on the parser object after the call returned; every later call on this object (after reset, on any document) invokes it with a dangling context"
+      (o.flag "C12" s!"@{k} {op}: the internal print/to_string callback is still installed on the parser object after the call returned; every later call on this object (after reset, on any document) invokes it with a dangling context").flag
+        "C01" s!"@{k} {op}: the internal print/to_string callback is still installed after the call returned: later calls run it on a dead stack frame and write through its stale destination pointer"
     else o
   -- C12 regions
   let o := match toks with
@@ -727,7 +763,7 @@ def oracleStep (o : OState) (toks : List String) (impl : String) : OState :=
   if op == "M" then o else
   if op.startsWith "x" then cppOracle o op toks impl else
   if op == "C" then { o with ps := #[{}, {}, {}, {}], ws := #[{}, {}, {}, {}], nCases := o.nCases + 1, region := 0 } else
-  if ["W", "wx", "wob", "woe", "wab", "wae", "wb", "wi", "wd", "ws", "wn", "wy", "wr", "wc", "wv", "dump", "wnN", "wrN"].contains op then
+  if ["W", "wx", "wob", "woe", "wab", "wae", "wb", "wi", "wd", "ws", "wn", "wy", "wr", "wc", "wv", "dump", "wnN", "wrN", "wrA"].contains op then
     writerOracle o k toks impl else
   if op == "P" then
     setPO o { md := (toks.getD 1 "0").toNat! } else
@@ -739,7 +775,7 @@ def oracleStep (o : OState) (toks : List String) (impl : String) : OState :=
   if op == "tr" then
     -- C10: transcription reproduces the input byte for byte
     (match po.value, toks, impl.splitOn " " with
-     | some _, [_, cap], r :: _ :: _ :: c :: m :: _ =>
+     | some _, _ :: cap :: _, r :: _ :: _ :: c :: m :: _ =>
        let capN := cap.toNat!
        let n := po.doc.size
        let o := { o with nWriterJudged := o.nWriterJudged + 1 }
@@ -750,7 +786,7 @@ def oracleStep (o : OState) (toks : List String) (impl : String) : OState :=
          if dropPrefix m 1 != memOut want then o.flag "C10" s!"transcribed bytes differ from the input: got {m}" else o
        else o
      | _, _, _ => o) |> fun o => setPO o { po with cursor := none, latched := 0 } else
-  if op == "ts" || op == "pr" then
+  if op == "ts" || op == "pr" || op == "tsH" then
     let o := textOracle o po toks impl
     let u := match (impl.splitOn " ").getLast? with
       | some t => if t.startsWith "u" then (dropPrefix t 1).toNat! else po.lastUsed
@@ -775,6 +811,12 @@ def oracleStep (o : OState) (toks : List String) (impl : String) : OState :=
     setPO o { doc := doc, md := po.md, root := root, value := v, inited := true,
               cursor := (if ob.ret == "1" then v.map (Cursor.start root) else none), latched := ob.err, lastErr := ob.err, lastUsed := ob.used }
   else
+  -- C16: rendering one bytes value of 4n bytes must not cost more than ~4x that of n bytes (CPU time class measured by the harness)
+  let o := if op == "tq" && impl != "lin" then o.flag "C16" s!"@{k} to_string is not linear in the size of a bytes value: {impl}" else o
+  -- C12: after a successful verify (or reset) the object looks like a freshly initialised one: cursor 0, no current item
+  let o := if (op == "v" || op == "r") && ob.ret == "1" && (ob.used != 0 || ob.ty != 0 || ob.name != "-" || ob.val != "_") then
+      o.flag "C12" s!"@{k} {op} returned true but the parser is not at the start like a fresh one: cursor {ob.used}, current type {ob.ty}, name {ob.name}, value {ob.val}"
+    else o
   -- C09: the error latch
   let resetting := op == "r" || op == "v"
   let o := if po.latched != 0 && !resetting then
